@@ -5,6 +5,7 @@ From PV Require Import Base Builder.
 Section Frames.
 Variable term : Type.
 Variable fields_tables : term -> list (option tbl).
+Variable find_tables : term -> list (option tbl).
 Variable and_ : term -> term -> term.
 Variable is_empty : term -> bool.
 Variable field_of : string -> option tbl -> term.
@@ -15,7 +16,7 @@ Variable sel_table : term -> option (option tbl).
 Variable mk_rollup : list term -> term.
 Variable rollup_args : term -> option (list term).
 
-Notation stp := (step term fields_tables and_ is_empty field_of wrap_int star is_star sel_table mk_rollup rollup_args).
+Notation stp := (step term fields_tables find_tables and_ is_empty field_of wrap_int star is_star sel_table mk_rollup rollup_args).
 
 Lemma qstate_ext : forall a b : qstate term, (forall x, eq_on term x a b) -> a = b.
 Proof.
